@@ -122,17 +122,24 @@ HIST_REGRESSION = [
 
 
 def hist_signature(events, at, clauses):
-    steps = []
+    """clauses : class/inst (the text or object of the rejected event) :
+    step kinds up to the rejected event (mutate@ref<d> = d levels down)"""
+    steps, tkind, hkind = [], [], []
     kind = "inst"
     for e in events[:at]:
         if e["kind"] == "htext":
-            kind = e["p"]["kind"]
+            tkind.append(e["p"]["kind"])
         elif e["kind"] == "hparse":
             steps.append("parse")
+            kind = tkind[e["t"] - 1] if e["t"] <= len(tkind) else kind
+            hkind.append(kind)
         elif e["kind"] == "hmutate":
             steps.append("mutate@ref%d" % e["d"] if e["d"] else "mutate")
+            kind = hkind[e["h"] - 1] if e["h"] <= len(hkind) else kind
         elif e["kind"] == "hprint":
             steps.append("print")
+            kind = hkind[e["h"] - 1] if e["h"] <= len(hkind) else kind
+            tkind.append(kind)
     return "hist:%s:%s:%s" % ("+".join(sorted(clauses)), kind,
                               ">".join(steps))
 
@@ -272,21 +279,27 @@ def hist_drift(ctx, n0, traces, infos):
 
 
 def hist_corrupted_rejected(ctx, traces, verdicts, flags):
+    """sensitivity: an accepted recorded history parse, parse, mutate(first
+    object) is corrupted in two ways; TLC must reject both"""
     import copy
     pick = None
     for ev, v in zip(traces, verdicts):
-        if v["ok"] and [e["kind"] for e in ev if e["kind"] != "htext"][:3] \
-                == ["hparse", "hparse", "hmutate"] and \
-                ev[-1]["kind"] == "hmutate" and ev[-1]["h"] == 1 and \
-                ev[-1]["f"] == "cls":
+        steps = [e for e in ev if e["kind"] != "htext"]
+        if v["ok"] and [e["kind"] for e in steps] == \
+                ["hparse", "hparse", "hmutate"] and steps[2]["h"] == 1 and \
+                len(steps[2]["heap"]) == 2 and \
+                steps[2]["heap"][0] != steps[2]["heap"][1]:
             pick = copy.deepcopy(ev)
             break
     if pick is None:
-        raise vlib.MachineryError("no accepted parse/parse/mutate history")
+        ctx.extra["sensitivity"].append(
+            "corrupted recorded histories: not performed (no accepted "
+            "parse/parse/mutate history in this run)")
+        return
     # the second object shows the modification of the first one
     a = copy.deepcopy(pick)
     a[-1]["heap"][1] = copy.deepcopy(a[-1]["heap"][0])
-    # a later parse returns something else than the first parse of the text
+    # a later parse returns something else than the path that was printed
     b = [e for e in copy.deepcopy(pick) if e["kind"] != "hmutate"]
     second = [e for e in b if e["kind"] == "hparse"][1]
     second["q"]["cls"] = second["q"]["cls"] + ["a"]
@@ -498,6 +511,14 @@ def run(ctx):
         "'reads as a URI' is decided with the most permissive parser variant "
         "and 'reads as a datetime' means the whole string is a datetime",
         "char16 is a 1-character str in pywbem; it is compared as a string",
+        "histories: texts of 6 paths that share reference texts (x 2 "
+        "formats) and texts printed from returned objects; the caller's "
+        "modifications are assignments to namespace / host / classname / a "
+        "keybinding (existing non-reference key, new key) of a returned "
+        "object or of the reference it holds (first reference keybinding, up "
+        "to 2 levels down); length 3 exhaustively (quick: 1,200 of them, "
+        "evenly over shapes), longer ones as random walks in the thorough "
+        "tier; objects are compared by value (projection), not by identity",
     ]
 
 
